@@ -29,7 +29,7 @@ def profile(name, **kw):
         callers=(1, 3), small=False, check_all_every=16, nontarget=True,
         tx=dict(edit=6, query=3, derive_edit=0, relabel=0, twin=0, pair=0, mutant=0,
                 enum=0, enant=0, react=0, persist=0, algebra=0, faults=0, flip=0,
-                isomers=0, symnum=0, wlpair=0, large=0, hubs=0, copies=0, build=1),
+                isomers=0, symnum=0, wlpair=0, large=0, hubs=0, copies=0, dense=0, build=1),
         fault_rate=(0.0, 0.15),
     )
     tx = dict(base["tx"])
@@ -39,7 +39,7 @@ def profile(name, **kw):
     PROFILES[name] = base
 
 
-profile("C09", tx=dict(edit=8, query=5, relabel=1, derive_edit=1, persist=0, large=0.08, build=1), steps=(30, 120))
+profile("C09", tx=dict(edit=8, query=5, relabel=1, derive_edit=1, persist=0, large=0.08, dense=0.5, build=1), steps=(30, 120))
 profile("C19", tx=dict(edit=6, query=2, faults=4, relabel=1, build=1), steps=(30, 90), fault_rate=(0.05, 0.3))
 profile("C10", tx=dict(edit=3, query=1, derive_edit=8, relabel=1, react=1, persist=1, algebra=2, isomers=1, build=1),
         nontarget=True, check_all_every=4, callers=(2, 4))
@@ -52,10 +52,10 @@ profile("C05", tx=dict(edit=3, enum=8, symnum=2, derive_edit=2, wlpair=4, copies
 profile("C06", tx=dict(edit=3, enant=6, derive_edit=2, build=2), small=True, max_atoms=(2, 7),
         classes=("SMG", "SCRG"))
 profile("C08", tx=dict(edit=2, react=8, derive_edit=2, build=1), classes=("MG", "SMG", "CRG", "SCRG"), max_atoms=(3, 8))
-profile("C15", tx=dict(edit=5, persist=8, query=1, relabel=1, build=2))
+profile("C15", tx=dict(edit=5, persist=8, query=1, relabel=1, derive_edit=1, large=0.1, build=2))
 profile("C16", tx=dict(edit=3, pair=4, mutant=4, flip=4, isomers=4, react=2, hubs=0.5, build=3), small=True, max_atoms=(2, 8),
         callers=(2, 3))
-profile("C17", tx=dict(edit=4, algebra=8, query=1, large=0.08, build=2), max_atoms=(3, 14))
+profile("C17", tx=dict(edit=4, algebra=8, query=1, large=0.08, dense=0.5, build=2), max_atoms=(3, 14))
 
 
 def make_config(rng, prof_name, tier):
@@ -770,6 +770,16 @@ class Gen:
                 yield dict(k="q", s=s, q=rng.choice(("connectivity_matrix", "connected_components", "len", "hash", "eq_self")))
             elif r < 0.6:
                 yield dict(k="probe_twin", s=s, seed=rng.randrange(2 ** 31), route=rng.choice(("fresh", "relabel")))
+            elif r < 0.7 and len(self.w.slots) + 3 <= self.w.max_slots and self.cfg["tx"].get("persist", 0) > 0:
+                t, d1, d2 = self.slot_id(), self.slot_id(), self.slot_id()
+                yield dict(k="serialize", src=s, dst=t, reencode=rng.choice((None, "sort")))
+                yield dict(k="deserialize", src=t, dst=d1)
+                if self.w.graph(d1) is not None:
+                    yield self.rand_mutator(d1)
+                yield dict(k="deserialize", src=t, dst=d2)
+                for x in (t, d1, d2):
+                    if x in self.w.slots:
+                        yield dict(k="drop", s=x)
             elif r < 0.8 and self.room():
                 ats = m.sorted_atoms()
                 start = rng.randrange(len(ats))
@@ -1210,6 +1220,47 @@ class Gen:
         if s in self.w.slots and not self.w.slots[s].locks:
             yield dict(k="drop", s=s)
 
+    def tx_dense(self):
+        """near-complete graphs: long work lists, many ring closures"""
+        rng = self.rng
+        kinds = [k for k in self.cfg["classes"] if k in ("MG", "CRG")] or ["MG"]
+        if not self.room():
+            for s in self.graphs(unlocked=True)[:2]:
+                yield dict(k="drop", s=s)
+        kind = rng.choice(kinds)
+        n = rng.choice((7, 8, 8, 9, 10, 12))
+        ids = list(self.cfg["ids"])
+        while len(ids) < n + 2:
+            ids.append(max(ids) + 1)
+        rng.shuffle(ids)
+        core = ids[:n]
+        pend = ids[n:n + rng.randint(0, 2)]
+        bonds = [[core[i], core[j], None] for i in range(n) for j in range(i + 1, n) if rng.random() < rng.choice((1.0, 0.9, 0.75))]
+        for p_ in pend:
+            bonds.append([rng.choice(core), p_, None])
+        atoms = [[a, rng.choice(self.cfg["elements"])] for a in core + pend]
+        rng.shuffle(atoms)
+        rng.shuffle(bonds)
+        s = self.slot_id()
+        yield dict(k="spec", dst=s, cls=kind, atoms=atoms, bonds=bonds, reserved=True)
+        if self.w.graph(s) is None:
+            return
+        for a in rng.sample(core + pend, min(3, len(core + pend))):
+            yield dict(k="q", s=s, q="node_connected_component", a=a)
+        yield dict(k="q", s=s, q="connected_components")
+        if rng.random() < 0.5:
+            x, y = rng.sample(core, 2)
+            yield dict(k="remove_bond", s=s, a=x, b=y) if B(x, y) in self.w.slots[s].model.bonds else dict(k="q", s=s, q="len")
+            yield dict(k="q", s=s, q="connected_components")
+        if self.room() and rng.random() < 0.5:
+            d = self.slot_id()
+            S = rng.sample(core + pend, rng.randint(2, len(core)))
+            yield dict(k="subgraph", src=s, dst=d, atoms=S, **{"as": "list"})
+            if d in self.w.slots:
+                yield dict(k="drop", s=d)
+        if s in self.w.slots and not self.w.slots[s].locks:
+            yield dict(k="drop", s=s)
+
     def tx_hubs(self):
         """two molecules with hypervalent centres (7 neighbours, no descriptor)
         that distribute the same ligands differently: the (element, neighbour
@@ -1633,9 +1684,14 @@ class Gen:
                     yield dict(k="drop", s=td)
         d = self.slot_id()
         yield dict(k="deserialize", src=t, dst=d)
-        if rng.random() < 0.3 and self.room():
+        if rng.random() < 0.4 and self.room():
+            if rng.random() < 0.6:
+                for _ in range(rng.randint(1, 3)):       # the first restored graph moves on ...
+                    sl = self.w.graph(d)
+                    if sl is not None and not sl.locks:
+                        yield self.rand_mutator(d)
             d2 = self.slot_id()
-            yield dict(k="deserialize", src=t, dst=d2)   # restore twice
+            yield dict(k="deserialize", src=t, dst=d2)   # ... and the same text is restored again
         yield dict(k="drop", s=t)
         for _ in range(rng.randint(0, 3)):
             sl = self.w.graph(d)
